@@ -79,6 +79,16 @@ def run(ctx):
     twopass(ctx, prog)
     early_exit_programs(ctx)
     temporaries_programs(ctx)
+    # collect_const! runs the iterator DSL's expansion (`__call_iter_methods`) in both of its passes: which elements arrive, and in
+    # which order, is C10's chain validation - decided here as well on its standard chain set (the glue around it is INIT/TWOPASS)
+    from . import c10
+    t_ = ctx.tier
+    ctx.tier = "quick"
+    try:
+        c10.tv(ctx)
+    finally:
+        ctx.tier = t_
+    ctx.floor("TV", 400)
     from .. import macrolint
     macrolint.hygiene_rule(ctx, ["array_map", "array_from_fn", "__array_map_by_val", "__array_from_fn2", "iter_collect_const", "str_from_iter"], facts.REPO)
     ctx.floor("HYGIENE", 16)
